@@ -13,6 +13,7 @@ ASSUMPTIONS = ['constraints are deterministic, idempotent and map the strict ran
 CLASSES = {
     'constrained': {'quick': 9600, 'thorough': 38400},
     'inplace_vs_pure': {'quick': 1920, 'thorough': 7680},
+    'wrappers': {'quick': 400, 'thorough': 6000},
 }
 MIN_EVENTS = {'quick': {'assert:c03': 30000, 'constraint_altered': 3000, 'step_boundaries': 3000}}
 CASE_TIMEOUT = 120
@@ -22,6 +23,9 @@ def run_case(cls, idx, rng, obs):
     import warnings, random, copy
     warnings.simplefilter('ignore')
     np.seterr(all='ignore')
+    if cls == 'wrappers':
+        from .c01 import run_wrapper
+        return run_wrapper(rng, obs, focus='c03')
     cfg = M.gen_cfg(rng, 'c03')
     if cls == 'constrained':
         obs.desc = cfg
